@@ -1192,6 +1192,7 @@ NewMarks(l) ==
   \cup (IF a = "LoadRet" /\ ~l.ok THEN {"loadFails"} ELSE {})
   \cup (IF a = "SeqNosRet" /\ ~l.ok THEN {"seqnosFails"} ELSE {})
   \cup (IF a = "SeqNosRet" /\ l.ok /\ Ahead THEN {"checkpointAhead"} ELSE {})
+  \cup (IF a = "SeqNosRet" /\ l.ok /\ Ahead /\ ~PartialLoad THEN {"checkpointAheadFullLoad"} ELSE {})   \* (nothing else wrong with the start)
   \cup (IF a = "FoLogRet" /\ ~l.ok THEN {"failoverLogFails"} ELSE {})
   \cup (IF a = "OpenRet" /\ l.res = "err" /\ opened # {} THEN {"secondOpenFails"} ELSE {})
   \cup (IF a = "OpenRet" /\ l.res = "err" /\ opener = "timer" THEN {"reopenOpenFails"} ELSE {})
